@@ -4,11 +4,43 @@ Model: coq/resume/Resume.v (the engine automaton of coq/engine started from the 
 coq/recover, with the in-memory image next to the durable one).  Monitor: MonRecover.mon_noreexec (no plugin
 invocation of a sequence action that is Completed/Failed in the crash image or whose last durable attempt has no
 error; none inside a sequence / block that is finished in the crash image; none at all when the plan is not durably
-Running).  Theorems: coq/resume/props/C09.v.  Harness: harness/cmd/recover (every write prefix of every recorded
-run is a crash point; double crashes; thorough: file-backed stores and real SIGKILLs).  See props/recover_common.py.
+Running).  Theorems: coq/resume/props/C09.v (every well-formed crash image) and coq/imgwf/props/C09.v (the FULL
+statement: every write-prefix crash image of every trace accepted by the uninterrupted-run automaton is well-formed -
+a reachable-state invariant of coq/engine's automaton - hence c09_no_reexecution and c09_crash_chain_full).
+Harness: harness/cmd/recover (every write prefix of every recorded run is a crash point; double crashes; thorough:
+file-backed stores and real SIGKILLs of a child).  See props/recover_common.py.
 """
+from vf import framework as fw
 from props import recover_common as rc
+
+FULL = "imgwf"      # coq/imgwf: the lemma about coq/engine that the full statement needs, and the full theorems
+
+
+def check_full(ctx):
+    """Full .vo build of coq/imgwf (and of the projects it cites: c04, c06) and re-check of coq/imgwf/props/C09.v
+    with Print Assumptions; its theorems are obligations of this check."""
+    ok, log, where = fw.coq_build([FULL])
+    ctx.oblige("full .vo build of coq/%s (make)" % FULL, ok)
+    if not ok:
+        ctx.violation(dict(kind="coq-build-failed", broken="first failing file: %s" % where, log=log[-3000:]), nofail=True)
+        return False
+    pc = fw.props_check(FULL, "C09")
+    good = pc["ok"] and bool(pc["theorems"]) and not pc["axioms"] and pc["closed"] == len(pc["theorems"])
+    for t in pc["theorems"]:
+        ctx.oblige("theorem %s (%s)" % (t, pc["file"]), good)
+    if isinstance(ctx.assumptions, dict):
+        ctx.assumptions["full_statement"] = dict(file=pc["file"], theorems=pc["theorems"],
+                                                 closed_under_global_context=pc["closed"], axioms=pc["axioms"])
+    if not good:
+        ctx.violation(dict(kind="property-theorem-does-not-check", broken=pc["file"], log=pc["log"]), nofail=True)
+    return good
 
 
 def run(ctx):
+    base = ctx.static_and_proofs
+
+    def both(proj, extra_projects=()):
+        # the partial theorems of coq/resume first (they set ctx.assumptions), then the full statement on top of them
+        return base(proj, extra_projects) and check_full(ctx)
+    ctx.static_and_proofs = both
     rc.run_check(ctx, "C09", plans_quick=12, plans_thorough=90, frm=0)
